@@ -78,6 +78,11 @@ def c06_oracle(d):
                 continue
             pos = (f.get("rec"), f.get("blk"))
             rs = d["job"]["history"]["config"]["rs"]
+            if f.get("rec") is None:
+                # the drive could not even be opened for this row: an error is an acceptable answer for a cut tape
+                if not f.get("err"):
+                    fails.append(dict(n=n, kind="fetch-without-position-and-without-error", detail=f))
+                continue
             start = f["rec"] * rs + f["blk"]
             mem = next((l for l in lay if l[0] == start), None)
             if mem is None:
